@@ -127,7 +127,7 @@ impl Property for C05 {
             let mut cells: Vec<(usize, &'static str, u8)> = Vec::new(); // (position, field, kind)
             let pos = if ctx.ch.chance(1, 2) { 0 } else { ctx.ch.index(coll.len()) };
             let field = *ctx.ch.pick(FIELDS);
-            let kind = ctx.ch.draw(6) as u8; // 0 none,1 bitflip,2 00,3 ff,4 +1,5 fieldswap
+            let kind = ctx.ch.draw(7) as u8; // 0 none,1 bitflip,2 00,3 ff,4 +1,5 fieldswap,6 reframe
             cells.push((pos, field, kind));
             if ctx.thorough {
                 for fld in FIELDS {
@@ -135,11 +135,32 @@ impl Property for C05 {
                         cells.push((0, fld, k));
                     }
                 }
+                cells.push((0, "C", 6));
             }
             for (pos, field, kind) in cells {
                 let mut bytes: Vec<Vec<u8>> = coll.iter().map(|&i| inbox[i].1.clone()).collect();
                 let mut applied = "none".to_string();
-                if kind != 0 {
+                if kind == 6 {
+                    // re-framing: the boundary between the encrypted message C and the encrypted coins D moves by
+                    // k bytes and both length prefixes are adjusted - every byte of the share is still there, the
+                    // tag is intact, only the split differs. The MAC covers message and coins as TWO items.
+                    if let Some(mut ps) = layout::parse_share(&bytes[pos]) {
+                        let k = 1 + ctx.ch.index(4);
+                        let before = bytes[pos].clone();
+                        if ctx.ch.chance(1, 2) && ps.c.len() >= k {
+                            let tail = ps.c.split_off(ps.c.len() - k);
+                            ps.d.splice(0..0, tail);
+                        } else if ps.d.len() >= k {
+                            let head: Vec<u8> = ps.d.drain(..k).collect();
+                            ps.c.extend(head);
+                        }
+                        bytes[pos] = layout::encode_share(&ps);
+                        if bytes[pos] != before {
+                            applied = format!("C|D boundary moved by {} in share #{}", k, pos);
+                            ctx.stats.fault("reframe_c_d");
+                        }
+                    }
+                } else if kind != 0 {
                     let lay = layout::share_fields(&bytes[pos], 0);
                     if let Some((_, a, b)) = lay.fields.iter().find(|f| f.0 == field).copied() {
                         let off = a + ctx.ch.index(b - a);
